@@ -377,6 +377,17 @@ func (r *Relay) handleConnect(s network.Stream, msg *pbv2.HopMessage) pbv2.Statu
 		r.handleError(s, status)
 	}
 
+	if isRelayAddr(bs.Conn().RemoteMultiaddr()) {
+		// The destination is only reachable through another relay (one that imposes
+		// no limits, or the stream would have been refused as limited).
+		log.Debug("refusing connection",
+			"source_peer", src,
+			"destination_peer", dest.ID,
+			"reason", "destination is only connected through another relay")
+		fail(pbv2.Status_CONNECTION_FAILED)
+		return pbv2.Status_CONNECTION_FAILED
+	}
+
 	if err := bs.Scope().SetService(ServiceName); err != nil {
 		log.Debug("error attaching stream to relay service",
 			"error", err)
@@ -735,12 +746,12 @@ func (r *Relay) gc() {
 
 func (r *Relay) disconnected(n network.Network, c network.Conn) {
 	p := c.RemotePeer()
-	if n.Connectedness(p) == network.Connected {
+	if hasDirectConn(n, p) {
 		return
 	}
 
 	r.mx.Lock()
-	if n.Connectedness(p) == network.Connected {
+	if hasDirectConn(n, p) {
 		// The peer has reconnected while this notification was waiting for the lock; it may
 		// already have made a new reservation over the new connection, which must not be dropped.
 		r.mx.Unlock()
@@ -759,6 +770,18 @@ func (r *Relay) disconnected(n network.Network, c network.Conn) {
 	if ok && r.metricsTracer != nil {
 		r.metricsTracer.ReservationClosed(1)
 	}
+}
+
+// hasDirectConn reports whether we have a connection to p that does not go through
+// another relay. A connection through a relay that imposes no limits is not marked
+// limited, so the peer's connectedness alone does not tell.
+func hasDirectConn(n network.Network, p peer.ID) bool {
+	for _, c := range n.ConnsToPeer(p) {
+		if !c.Stat().Limited && !isRelayAddr(c.RemoteMultiaddr()) {
+			return true
+		}
+	}
+	return false
 }
 
 func isRelayAddr(a ma.Multiaddr) bool {
